@@ -996,10 +996,29 @@ func (r *hdRun) project(conn int, data []byte) string {
 		case "participants":
 			switch m.Event.Type {
 			case "update":
-				if m.Event.Update != nil && m.Event.Update.All {
-					return "(SPart 1)"
+				// the room the update is for and the signaling sessions its user list names (sorted; entries whose
+				// session id is not a session id of this server would be 0 and are left out)
+				all, room := 0, 0
+				var ids []uint64
+				if u := m.Event.Update; u != nil {
+					if u.All {
+						all = 1
+					}
+					room = hdRoomNum(u.RoomId)
+					for _, e := range u.Users {
+						if id, ok := e["sessionId"].(string); ok {
+							if sid := r.sys.sidOf(id); sid != 0 {
+								ids = append(ids, sid)
+							}
+						}
+					}
 				}
-				return "(SPart 0)"
+				sort.Slice(ids, func(i, j int) bool { return ids[i] < ids[j] })
+				var terms []string
+				for _, e := range ids {
+					terms = append(terms, fmt.Sprintf("%d", e))
+				}
+				return fmt.Sprintf("(SPartL %d %d %s)", all, room, coqList(terms))
 			case "flags":
 				if m.Event.Flags != nil {
 					return fmt.Sprintf("(SFlags %d %d)", r.sys.sidOf(m.Event.Flags.SessionId), m.Event.Flags.Flags)
